@@ -62,6 +62,7 @@ def OutOfRange (len : Nat) : Op → Prop
   | .setChar pos _ => pos ≥ len
   | .insert _ pos => pos > len
   | .insertCstr _ pos => pos > len
+  | .insertSelf pos => pos > len
   | .delete pos _ => pos ≥ len
   | .searchChar _ pos => pos ≥ len
   | .search _ pos => pos > len
@@ -103,7 +104,15 @@ theorem oob_fails_without_effect (b : Buf) (h : Inv b) (op : Op) (ho : OutOfRang
       by_cases hs : b.isStatic = true
       · simp [Buf.step, liftB, insertCstr_static hs]
       · have hs' : b.isStatic = false := by simpa using hs
-        simp [Buf.step, liftB, Buf.insertCstr, hs', insertData_refused pos (cstrOf s) (Or.inr ho)]
+        simp [Buf.step, liftB, Buf.insertCstr, hs', insertData_refused pos (bufCstrOf s) (Or.inr ho)]
+  | insertSelf pos =>
+    refine ⟨.bool false, ?_, rfl⟩
+    by_cases hs : b.isStatic = true
+    · simp [Buf.step, liftB, insertSelf_static hs]
+    · have hs' : b.isStatic = false := by simpa using hs
+      obtain ⟨d, hd, hr⟩ := duplicate_view hv
+      simp [Buf.step, liftB, Buf.insertSelf, hs', hd, contents_view hr.view,
+        insertData_refused pos b.abs (Or.inr ho)]
   | delete pos n => exact ⟨.bool false, by simp [Buf.step, liftB, delete_refused pos n (Or.inl ho)], rfl⟩
   | searchChar ch pos =>
     refine ⟨.optNat none, ?_, rfl⟩
@@ -123,6 +132,7 @@ theorem oob_fails_without_effect (b : Buf) (h : Inv b) (op : Op) (ho : OutOfRang
   | len => exact absurd ho (by simp [OutOfRange])
   | getCstr => exact absurd ho (by simp [OutOfRange])
   | duplicate => exact absurd ho (by simp [OutOfRange])
+  | appendSelf => exact absurd ho (by simp [OutOfRange])
   | append _ => exact absurd ho (by simp [OutOfRange])
   | appendData _ => exact absurd ho (by simp [OutOfRange])
   | appendCstr _ => exact absurd ho (by simp [OutOfRange])
@@ -145,7 +155,7 @@ theorem oob_fails_without_effect (b : Buf) (h : Inv b) (op : Op) (ho : OutOfRang
 
 /-- The operations that change a buffer. -/
 def Mutating : Op → Bool
-  | .setChar _ _ | .insert _ _ | .insertCstr _ _ | .append _ | .appendData _ | .appendCstr _
+  | .setChar _ _ | .insert _ _ | .insertCstr _ _ | .insertSelf _ | .appendSelf | .append _ | .appendData _ | .appendCstr _
   | .appendChar _ | .appendMb _ | .delete _ _ | .shrink | .strip | .noSpaces | .rtz
   | .hexToBin | .binToHex _ | .decB64 | .encB64 => true
   | _ => false
